@@ -87,6 +87,7 @@ fn load(sim: &mut Simulator, addr: u16, w: u16) {
 }
 
 pub struct World {
+    pub psr0: u16,
     pub sim: Simulator,
     pub kb: Arc<RwLock<VecDeque<u8>>>,
     pub ds: Arc<RwLock<Vec<u8>>>,
@@ -96,6 +97,10 @@ pub struct World {
 /// A user-mode machine about to execute the word `user_word` at x3000, default flags, the real
 /// devices attached, registers arbitrary (R6 = user stack pointer arbitrary).
 pub fn world(user_word: u16, queue: VecDeque<u8>) -> World {
+    world_psr(user_word, queue, 0x8002)
+}
+/// `psr0`: the (concrete) PSR of the calling user program
+pub fn world_psr(user_word: u16, queue: VecDeque<u8>, psr0: u16) -> World {
     pm_reset();
     let layout = std::alloc::Layout::new::<[Word; 1 << 16]>();
     #[cfg(kani)]
@@ -120,10 +125,14 @@ pub fn world(user_word: u16, queue: VecDeque<u8>) -> World {
         dh.set_keyboard(BufferedKeyboard::new(Arc::clone(&kb)));
         dh.set_display(BufferedDisplay::new(Arc::clone(&ds)));
     }
-    let mut sim = Simulator::verif_from_parts(flags, mem, regs, 0x3000, 0x8002, Word::new_init(0x3000),
+    let mut sim = Simulator::verif_from_parts(flags, mem, regs, 0x3000, psr0, Word::new_init(0x3000),
         FrameStack::verif_new_empty(false, 0), Box::new([]), 0, false, dh);
     load(&mut sim, 0x3000, user_word);
-    World { sim, kb, ds, regs0 }
+    // the PSR's default MMIO mapping (as in Simulator::new); used by split_on_cc
+    let m = sim.mmap_internal(0xFFFC, lc3_ensemble::sim::InternalRegister::PSR);
+    assert!(m.is_ok());
+    std::mem::forget(m);
+    World { psr0, sim, kb, ds, regs0 }
 }
 
 fn finished(w: &World) -> bool {
@@ -172,7 +181,7 @@ fn assert_restored(w: &World, except_r0: bool) {
         && w.sim.reg_file[REGS[3]] == w.regs0[3] && w.sim.reg_file[REGS[4]] == w.regs0[4]
         && w.sim.reg_file[REGS[5]] == w.regs0[5] && w.sim.reg_file[REGS[6]] == w.regs0[6]
         && w.sim.reg_file[REGS[7]] == w.regs0[7], "trap routine did not restore a register");
-    assert!(w.sim.psr().get() == 0x8002, "trap routine did not restore the PSR (condition codes / privilege / priority)");
+    assert!(w.sim.psr().get() == w.psr0, "trap routine did not restore the PSR (condition codes / privilege / priority)");
     assert!(w.sim.verif_saved_sp() == Word::new_init(0x3000), "supervisor stack pointer not restored");
     assert!(w.sim.frame_stack.len() == 0, "frame depth not back to 0");
     assert!(!unsafe { PM_EXHAUSTED }, "harness bound: more than PM_K distinct memory cells");
@@ -180,9 +189,13 @@ fn assert_restored(w: &World, except_r0: bool) {
 
 /// GETC (TRAP x20) with two bytes queued: TRAP; [LDI KBSR; BRzp]+; LDI KBDR; RTI
 pub fn getc(poll1: Option<bool>, poll2: Option<bool>, data: Option<bool>) {
+    getc_psr(poll1, poll2, data, 0x8002)
+}
+/// `psr0`: the caller's PSR (user mode; condition code and priority concrete per harness)
+pub fn getc_psr(poll1: Option<bool>, poll2: Option<bool>, data: Option<bool>, psr0: u16) {
     let b0: u8 = nd::any();
     let b1: u8 = nd::any();
-    let mut w = world(0xF020, VecDeque::from([b0, b1]));
+    let mut w = world_psr(0xF020, VecDeque::from([b0, b1]), psr0);
     load(&mut w.sim, 0x0020, os::TRAP_GETC);
     load(&mut w.sim, os::TRAP_GETC, os_word(os::TRAP_GETC));
     load(&mut w.sim, os::TRAP_GETC + 1, os_word(os::TRAP_GETC + 1));
@@ -227,9 +240,66 @@ pub fn getc(poll1: Option<bool>, poll2: Option<bool>, data: Option<bool>) {
     std::mem::forget(w);
 }
 
-/// OUT / PUTC (TRAP x21): TRAP; ADD; STR; [LDI DSR; BRzp]+; LDR; ADD; STI DDR; RTI
-pub fn putc(poll1: Option<bool>, poll2: Option<bool>, data: Option<bool>) {
+/// Re-concretisation of the PSR by a checked case split. After an instruction that sets the
+/// condition codes from SYMBOLIC data the PSR is a symbolic expression and CBMC no longer sees its
+/// privilege bit as a constant (every later step would be explored like a fully symbolic one).
+/// `cont` is run once per condition code, after the PSR has been PROVEN equal to the constant
+/// `base | cc` (assertion) and re-written with that very constant through the PSR's MMIO mapping at
+/// xFFFC - a semantic no-op that makes the value syntactically constant on that path.
+fn split_on_cc(w: &mut World, base: u16, only_positive: bool, cont: fn(&mut World, &PutcCtx), cx: &PutcCtx) {
+    let p = w.sim.psr().get();
+    let ctx = lc3_ensemble::sim::MemAccessCtx::omnipotent();
+    if only_positive || p == (base | 1) {
+        assert!(p == (base | 1), "PSR is not the expected privilege/priority with condition code p");
+        let r = w.sim.write_mem(0xFFFC, Word::new_init(base | 1), ctx);
+        std::mem::forget(r);
+        cont(w, cx);
+    } else if p == (base | 2) {
+        let r = w.sim.write_mem(0xFFFC, Word::new_init(base | 2), ctx);
+        std::mem::forget(r);
+        cont(w, cx);
+    } else {
+        assert!(p == (base | 4), "PSR is not the expected privilege/priority plus a one-hot condition code");
+        let r = w.sim.write_mem(0xFFFC, Word::new_init(base | 4), ctx);
+        std::mem::forget(r);
+        cont(w, cx);
+    }
+}
+
+pub struct PutcCtx {
+    pub data: Option<bool>,
+    pub user_cell: Word,
+}
+
+/// the tail of PUTC after `LDR R0, R6, #0`: ADD R6,R6,#1; STI R0,DDR; RTI; checks
+fn putc_tail(w: &mut World, cx: &PutcCtx) {
+    step(w); // ADD R6, R6, #1
+    let data_held = dev_step(w, 1, cx.data); // STI R0, DDR
+    step(w); // RTI
+    assert!(finished(w), "OUT did not return to the caller");
+    {
+        let out = w.ds.read().unwrap();
+        let want = w.regs0[0].get() as u8;
+        if !data_held {
+            assert!(out.len() == 1 && out[0] == want, "OUT did not emit exactly R0's low byte once");
+        } else {
+            // limitation of the ready-then-write protocol under contention (DESIGN.md section 7b)
+            assert!(out.len() == 1 && out[0] == want, "KF-C33-putc: lock held during the DDR write - output byte dropped");
+        }
+    }
+    assert_restored(w, false);
+    assert!(w.sim.mem[0x3100] == cx.user_cell, "trap routine changed user memory");
+    crate::nd_cover!(!data_held, "OUT completes with an uncontended data write");
+}
+
+/// OUT / PUTC (TRAP x21): TRAP; ADD; STR; [LDI DSR; BRzp]+; LDR; ADD; STI DDR; RTI.
+/// `char_only`: R0 holds a character 1..=x7F (one condition-code case instead of three).
+pub fn putc(poll1: Option<bool>, poll2: Option<bool>, data: Option<bool>, char_only: bool) {
     let mut w = world(0xF021, VecDeque::new());
+    if char_only {
+        let v = w.regs0[0];
+        nd::assume(v.get() >= 1 && v.get() <= 0x7F);
+    }
     load(&mut w.sim, 0x0021, os::TRAP_PUTC);
     load(&mut w.sim, os::TRAP_PUTC, os_word(os::TRAP_PUTC));
     load(&mut w.sim, os::TRAP_PUTC + 1, os_word(os::TRAP_PUTC + 1));
@@ -258,23 +328,10 @@ pub fn putc(poll1: Option<bool>, poll2: Option<bool>, data: Option<bool>) {
         }
     }
     assert!(w.sim.pc == os::TRAP_PUTC + 4, "OUT did not proceed after a ready status");
-    step(&mut w); // LDR R0, R6, #0
-    step(&mut w); // ADD R6, R6, #1
-    let data_held = dev_step(&mut w, 1, data); // STI R0, DDR
-    step(&mut w); // RTI
-    assert!(finished(&w), "OUT did not return to the caller");
-    {
-        let out = w.ds.read().unwrap();
-        let want = w.regs0[0].get() as u8;
-        if !data_held {
-            assert!(out.len() == 1 && out[0] == want, "OUT did not emit exactly R0's low byte once");
-        } else {
-            assert!(out.len() == 1 && out[0] == want, "KF-C33-putc: lock held during the DDR write - output byte dropped");
-        }
-    }
-    assert_restored(&w, false);
-    assert!(w.sim.mem[0x3100] == user_cell, "trap routine changed user memory");
-    crate::nd_cover!(!data_held, "OUT completes with an uncontended data write");
+    step(&mut w); // LDR R0, R6, #0   (condition codes := sign of the symbolic R0)
+    let cx = PutcCtx { data, user_cell };
+    // supervisor mode, priority 0: PSR = x0000 | cc
+    split_on_cc(&mut w, 0x0000, char_only, putc_tail, &cx);
     std::mem::forget(w);
 }
 
@@ -344,8 +401,10 @@ pub fn probe_steps1() {
 }
 crate::pstep_harnesses! {
     pprobe_step1 = probe_steps1();
-    // C11: GETC's contract (no contention)
+    // C11: GETC's contract (no contention), called with each condition code (and a non-zero priority)
     c11_getc = getc(Some(false), Some(false), Some(false));
+    c11_getc_ccn = getc_psr(Some(false), Some(false), Some(false), 0x8004);
+    c11_getc_ccp_prio = getc_psr(Some(false), Some(false), Some(false), 0x8301);
     // C33, program level: the other thread holds the keyboard lock ...
     // ... possibly during the data read (symbolic), status poll uncontended
     c33_getc_data = getc(Some(false), Some(false), None);
@@ -353,7 +412,9 @@ crate::pstep_harnesses! {
     c33_getc_poll = getc(Some(true), Some(false), Some(false));
     // ... during the first status poll and possibly during the data read
     c33_getc_poll_data = getc(Some(true), Some(false), None);
-    // OUT / PUTC: kept for reference, NOT registered - the condition codes become a symbolic
-    // expression after `LDR R0` and every later step is explored like a fully symbolic one (out of memory)
-    c11_putc = putc(Some(false), Some(false), Some(false));
+    // OUT / PUTC: the condition codes become a symbolic expression after `LDR R0`; see split_on_cc
+    c11_putc = putc(Some(false), Some(false), Some(false), false);
+    // C33, program level, display: a character is written while the other thread possibly holds the lock
+    c33_putc_data = putc(Some(false), Some(false), None, true);
+    c33_putc_poll = putc(Some(true), Some(false), Some(false), true);
 }
